@@ -10,9 +10,12 @@ EXTENDS Brc20Ref, Json, IOUtils, TLCExt
 
 Rec == ndJsonDeserialize(IOEnv.TRACE)
 
-VARIABLE l
+VARIABLES l,
+          pred      \* the last eth_call at a block boundary: [tx, ok, out], valid until the state changes (C17)
 
-tvars == <<chain, cur, world, pool, snaps, maxEver, dur, l>>
+tvars == <<chain, cur, world, pool, snaps, maxEver, dur, l, pred>>
+
+NoPred == [tx |-> [kind |-> "none"], ok |-> FALSE, out |-> "none"]
 
 E == Rec[l]
 IsEv(name) == l <= Len(Rec) /\ Rec[l].ev = name /\ l' = l + 1
@@ -132,7 +135,42 @@ InitVals ==
   /\ maxEver' = -1
   /\ dur' = [chain |-> <<>>, world |-> EmptyWorld, pool |-> <<>>, snaps |-> <<>>]
 
-TrReset == IsEv("Reset") /\ InitVals
+TrReset == IsEv("Reset") /\ InitVals /\ pred' = NoPred
+
+(* C17: the transaction executed right after an eth_call with the same sender, target and data *)
+(* has the predicted success flag and return data                                               *)
+PredHolds(tx, rc) ==
+  (pred.tx = tx /\ TracesOn) => (rc.status = (IF pred.ok THEN 1 ELSE 0) /\ rc.out = pred.out)
+
+Predictable(tx) == tx.gas = "ample" /\ Class(world, tx) = "full" /\ Code(world, IF tx.kind = "create" THEN "dead" ELSE tx.to) # "probe"
+
+TrEthCall ==
+  /\ IsEv("EthCall")
+  /\ Chk("res", E.res = "ok")
+  /\ Chk("boundary", cur.n = 0)
+  /\ Predictable(E.tx) =>
+        Chk("eth_call-result", LET r == EvalMany(world, <<E.tx>>)[1] IN E.ok = r.ok /\ (E.ok => E.out = r.out))
+  /\ pred' = [tx |-> E.tx, ok |-> E.ok, out |-> E.out]
+  /\ UNCHANGED vars
+
+TrEstimate ==
+  /\ IsEv("Estimate")
+  /\ Chk("res", E.res = "ok")
+  /\ Predictable(E.tx) => Chk("estimate-result", E.ok = EvalMany(world, <<E.tx>>)[1].ok)
+  /\ pred' = NoPred
+  /\ UNCHANGED vars
+
+TrCallMany ==
+  /\ IsEv("CallMany")
+  /\ Chk("res", E.res = "ok")
+  /\ (\A i \in DOMAIN E.txs : E.txs[i].gas = "ample" /\ E.txs[i].lc.fn = "none") =>
+        LET r == EvalMany(world, E.txs)
+            allok == \A i \in DOMAIN r : r[i].ok
+        IN  /\ Chk("callmany-ok", E.ok = allok)
+            /\ Chk("callmany-outs", (E.ok /\ ~E.estimate) => E.outs = [i \in DOMAIN r |-> r[i].out])
+            /\ Chk("callmany-failidx", (~E.ok /\ E.failidx >= 0) => E.failidx + 1 = CHOOSE i \in DOMAIN r : ~r[i].ok /\ \A j \in 1..(i - 1) : r[j].ok)
+  /\ pred' = NoPred
+  /\ UNCHANGED vars
 
 TrInitialise ==
   /\ IsEv("Initialise")
@@ -161,6 +199,8 @@ TrAddTx ==
           /\ Chk("receipt", SeenOk(world, E.tx, Seen(E.rc)))
           /\ Chk("rc-links", RcLinks(E.rc, E.idx, E.hash, E.tx.from, IF E.tx.kind = "create" THEN NULL ELSE E.tx.to))
           /\ Chk("returned=served", E.returned_eq_served)
+          /\ Chk("predicted-by-eth_call", PredHolds(E.tx, E.rc))
+          /\ Chk("tx-output", (TracesOn /\ Predictable(E.tx)) => E.rc.out = CallOut(world, E.tx))
           /\ AddTx(E.rc.id, E.tx, E.insc, E.idx, E.hash, E.ts, Seen(E.rc))
      ELSE Chk("res", E.res = "err") /\ Reject
 
@@ -215,12 +255,52 @@ TrReorg ==
           /\ Chk("reorg-refused", ~ReorgAcceptable(E.n))      \* C01: accepted whenever inside the window
           /\ Reject
 
-TraceNext ==
-  /\ (TrReset \/ TrInitialise \/ TrMine \/ TrAddTx \/ TrTransact \/ TrFinalise \/ TrCommit \/ TrClear
-        \/ TrRestart \/ TrReorg)
-  /\ (Rec[l].ev = "Reset" \/ ObsOK(Rec[l].obs, Post))
+(* C18: eth_getLogs returns exactly the matching logs of the range, in chain order *)
+PosMatch(p, lg, i) ==
+  IF p.k = "any" THEN (IF i <= Len(lg.t) THEN "yes" ELSE "maybe")
+  ELSE IF i > Len(lg.t) THEN "no"
+  ELSE IF lg.t[i] \in {ToString(p.v[j]) : j \in DOMAIN p.v} THEN "yes" ELSE "no"
 
-TraceInit == Init /\ l = 1
+LogMatch(f, lg) ==
+  LET ms == {PosMatch(f.topics[i], lg, i) : i \in DOMAIN f.topics}
+  IN  IF f.addr # NULL /\ f.addr # lg.a THEN "no"
+      ELSE IF "no" \in ms THEN "no"
+      ELSE IF "maybe" \in ms THEN "maybe" ELSE "yes"
+
+RangeLogs(lo, hi) ==
+  UNION {LET fl == FlatLogs(chain[b + 1].txs, 1, 0)
+         IN  {[b |-> b, li |-> fl[k].li, id |-> fl[k].id, a |-> fl[k].a, t |-> fl[k].t] : k \in DOMAIN fl}
+         : b \in {x \in lo..hi : x <= Height /\ x >= 0}}
+
+TrGetLogs ==
+  /\ IsEv("GetLogs")
+  /\ Chk("res", E.res = "ok")
+  /\ LET f == E.filter
+         H == IF Height < 0 THEN 0 ELSE Height
+         lo == IF f.from < 0 THEN H ELSE f.from
+         hi == IF f.to < 0 THEN lo ELSE f.to
+         inrange == RangeLogs(lo, hi)
+         must == {x \in inrange : LogMatch(f, [a |-> x.a, t |-> x.t]) = "yes"}
+         may == {x \in inrange : LogMatch(f, [a |-> x.a, t |-> x.t]) # "no"}
+         got == {E.logs[i] : i \in DOMAIN E.logs}
+     IN  IF hi < lo THEN Chk("reversed-range", ~E.ok \/ E.logs = <<>>)
+         ELSE IF hi - lo > 5 THEN Chk("wide-range-refused", ~E.ok)
+         ELSE /\ Chk("getlogs-ok", E.ok)
+              /\ Chk("getlogs-sound", got \subseteq may)
+              /\ Chk("getlogs-complete", must \subseteq got)
+              /\ Chk("getlogs-once", Cardinality(got) = Len(E.logs))
+              /\ Chk("getlogs-order", \A i \in 1..(Len(E.logs) - 1) :
+                      E.logs[i].b < E.logs[i + 1].b \/ (E.logs[i].b = E.logs[i + 1].b /\ E.logs[i].li < E.logs[i + 1].li))
+  /\ pred' = NoPred
+  /\ UNCHANGED vars
+
+TraceNext ==
+  /\ \/ TrReset \/ TrEthCall \/ TrEstimate \/ TrCallMany \/ TrGetLogs
+     \/ ((TrInitialise \/ TrMine \/ TrAddTx \/ TrTransact \/ TrFinalise \/ TrCommit \/ TrClear \/ TrRestart \/ TrReorg)
+          /\ pred' = NoPred)
+  /\ (Rec[l].ev \in {"Reset", "GetLogs"} \/ ObsOK(Rec[l].obs, Post))
+
+TraceInit == Init /\ l = 1 /\ pred = NoPred
 
 TraceSpec == TraceInit /\ [][TraceNext]_tvars
 
